@@ -1,9 +1,15 @@
 #!/bin/bash
 # seed_one.sh <seeded/<id>> : one kept seeded change against the quick check of its property
 cd "$(dirname "$0")/../.."
-d=${1%/}; id=$(basename $d); P=${id%%-*}
+SRC=$PWD
+# private copy of the machinery: translate / lake build / evidence of concurrent workers must not interfere
+V=/tmp/vw_$$; rm -rf $V; mkdir -p $V
+rsync -a --exclude .git --exclude seeded --exclude refactorings --exclude replays --exclude design_probes $SRC/ $V/
+trap 'rm -rf $V' EXIT
+d=$(readlink -f ${1%/}); id=$(basename $d); P=${id%%-*}
+cd $V
 W=/tmp/sreg_${id:0:40}_$$; git -C /repo worktree add -q --detach $W || exit 2
-if ( cd $W && git apply "$OLDPWD/$d/patch.diff" 2>/dev/null ); then
+if ( cd $W && git apply "$d/patch.diff" 2>/dev/null ); then
   out=$(AIU_REPO=$W timeout 2400 /venv/bin/python harness/check.py $P --tier quick 2>&1); rc=$?
   v=$(echo "$out" | grep -c "^VIOLATION property=$P")
   nf=$(echo "$out" | grep -c "no-failing-input-found")
